@@ -24,6 +24,9 @@ def run(ctx):
     rule_templates(ctx, repo)
     rule_selection(ctx, repo)
     rule_escape(ctx, repo, eng)
+    r_ = ctx.rule('C12.I2', 'script templates are matched by index only behind the length test of the template', engine='GUARD', floor=8)
+    fs_ = [f for q, f in sorted(repo.functions.items()) if q.startswith('bitcoin.wallet.') and f.name == 'from_scriptPubKey']
+    common.const_index_instances(r_, repo, fs_, what='a shorter script raises IndexError instead of being refused as "not a recognised script"')
     # the bech32 acceptance rules are what refuses other chains' and malformed segwit strings
     from . import c11
     for fn, rid in ((c11.rule_segwit_rules, 'C12.R3'), (c11.rule_convertbits, 'C12.R2'), (c11.rule_decode_rules, 'C12.R1')):
